@@ -17,7 +17,7 @@ def parseState (s : String) : Option PState :=
 
 def parseBeh (s : String) : Option Beh :=
   match s with
-  | "ok" => some .ok | "e" => some .e | "np" => some .np | "npx" => some .npx | "ap" => some .ap
+  | "ok" => some .ok | "oka" => some .oka | "e" => some .e | "np" => some .np | "npx" => some .npx | "ap" => some .ap
   | "jnull" => some .jnull | "nj" => some .nj | "empty" => some .empty | "nj4" => some .nj4
   | "jarr" => some .jarr | "d0" => some .d0 | "dcl" => some .dcl | "dch" => some .dch
   | "dchp" => some .dchp | "st" => some .st | "ps" => some .ps | "pss" => some .pss
@@ -102,7 +102,7 @@ def showReq : Req → String
   | .other => "other"
 
 def showCls : Cls → String
-  | .honest => "honest" | .ipfsErr => "ipfsErr" | .notPinned => "notPinned" | .hardFail => "hardFail"
+  | .honest => "honest" | .honestAny => "honestAny" | .ipfsErr => "ipfsErr" | .notPinned => "notPinned" | .hardFail => "hardFail"
   | .lostReply => "lostReply" | .stall => "stall" | .noProgress => "noProgress" | .slowOk => "slowOk"
   | .streamErr => "streamErr" | .badBody => "badBody"
 
@@ -123,7 +123,7 @@ def arm (i : Input) : String :=
   | r :: _ =>
     let k := m.trace.length - 1
     opS ++ "-" ++ reqKind r ++ (if m.trace.length == 3 then "2" else "") ++ "-" ++
-      showCls (clsAt r.isAdd (i.beh k)) ++ "-" ++ showRes m.res
+      showCls (if k == 0 && i.op != .unpin then clsFirst (i.beh k) else clsAt r.isAdd (i.beh k)) ++ "-" ++ showRes m.res
 
 def answer (ws : List String) : String :=
   match parseCase ws with
